@@ -270,6 +270,10 @@ func (w *World) transmit(m *Msg, fromAddr int) {
 		delay += time.Duration(r(3) * float64(p.Links.SlowMs) * float64(time.Millisecond))
 		w.fault("slow-message")
 	}
+	if !synced && m.from != nil && m.from.slowUntil > w.now() {
+		delay += m.from.slowExtra
+		w.fault("slow-node-message")
+	}
 	if synced {
 		if max := time.Duration(p.ViewDur.Ms) * time.Millisecond / 10; delay > max {
 			delay = max
